@@ -106,11 +106,42 @@ def classify(ev_kind, detail, loc, exprs_in_sig, stub_text):
     return ev_kind
 
 
-def judge_build(res, tmod, traces_spec, k, stratum, wit):
-    """traces_spec: [(fname, {'a': expr, ...}, ret expr | None)] -> build stub through the real code and judge."""
+def judge_build(res, tmod, traces_spec, k, stratum, wit, co=None):
+    """traces_spec: [(fname, {'a': expr, ...}, ret expr | None)] -> build stub through the real code and judge.
+    co = (second target module, its traces_spec): both modules' traces go into ONE build call (as StubIndexBuilder does),
+    each module's stub is judged on its own."""
     from monkeytype.stubs import build_module_stubs_from_traces
     from monkeytype.tracing import CallTrace
     from monkeytype.typing import NoOpRewriter
+
+    if co is not None:
+        tm2, spec2 = co
+        traces2, handed2 = _traces_of(tm2, spec2)
+        traces1, handed1 = _traces_of(tmod, traces_spec)
+        res.count("evaluations")
+        res.count("two_module_builds")
+        try:
+            stubs = build_module_stubs_from_traces(traces1 + traces2, k, rewriter=NoOpRewriter())
+            texts = [(tmod, stubs[tmod.__name__].render(), handed1), (tm2, stubs[tm2.__name__].render(), handed2)]
+        except Exception as e:
+            res.violation(f"stub-build-raises:{type(e).__name__}", f"{e!r:.300}", wit)
+            return
+        for tm, text, handed in texts:
+            _judge_text(res, tm, text, handed, k, stratum, wit)
+        return
+    traces, handed = _traces_of(tmod, traces_spec)
+    res.count("evaluations")
+    try:
+        stubs = build_module_stubs_from_traces(traces, k, rewriter=NoOpRewriter())
+        text = stubs[tmod.__name__].render()
+    except Exception as e:
+        res.violation(f"stub-build-raises:{type(e).__name__}", f"{e!r:.300}", wit)
+        return
+    _judge_text(res, tmod, text, handed, k, stratum, wit)
+
+
+def _traces_of(tmod, traces_spec):
+    from monkeytype.tracing import CallTrace
 
     traces = []
     handed = {}
@@ -129,13 +160,10 @@ def judge_build(res, tmod, traces_spec, k, stratum, wit):
             none_ret = rt_ is None or rt_ is type(None)
             rt_ = _t.Iterator[yt_] if none_ret else _t.Generator[yt_, type(None), rt_]
         handed[fname] = (at, rt_)
-    res.count("evaluations")
-    try:
-        stubs = build_module_stubs_from_traces(traces, k, rewriter=NoOpRewriter())
-        text = stubs[tmod.__name__].render()
-    except Exception as e:
-        res.violation(f"stub-build-raises:{type(e).__name__}", f"{e!r:.300}", wit)
-        return
+    return traces, handed
+
+
+def _judge_text(res, tmod, text, handed, k, stratum, wit):
     se = StubEval(text, tmod)
     wit = dict(wit, stub=text[:3000])
     keys = {}
@@ -214,9 +242,9 @@ def gen_td_expr(rng, fresh, fields, depth=0):
     return "TD({" + req + "}, {" + opt + "})"
 
 
-def gen_build(rng):
+def gen_build(rng, force=None):
     r = rng.random()
-    stratum = "main" if r < 0.42 else ("td" if r < 0.78 else ("samename" if r < 0.85 else ("tdbody" if r < 0.93 else "tdcollide")))
+    stratum = force or ("main" if r < 0.42 else ("td" if r < 0.78 else ("samename" if r < 0.85 else ("tdbody" if r < 0.93 else "tdcollide"))))
     counter = [0]
 
     def fresh(n):
@@ -271,6 +299,9 @@ def work(p):
     write_fixture(d, tname)
     importlib.invalidate_caches()
     tmod = importlib.import_module(tname)
+    open(os.path.join(d, tname + "_b.py"), "w").write(target_source(tname + "_b"))
+    importlib.invalidate_caches()
+    tmod_b = importlib.import_module(tname + "_b")
     setup_ns(tmod)
     rng = random.Random(p["seed"])
     for b in range(p["builds"]):
@@ -278,9 +309,17 @@ def work(p):
         if not spec:
             continue
         res.count("stratum_" + stratum)
-        judge_build(res, tmod, spec, k, stratum, {"spec": spec, "k": k, "stratum": stratum})
+        co = None
+        if stratum in ("tdbody", "main") and rng.random() < 0.4:
+            # a second module traced in the same run: same parameter names, other classes
+            _s, _k, spec_b = gen_build(rng, force=stratum)
+            spec_b = [x for x in spec_b if not any("Own" in str(v) or "OInner" in str(v) for v in list(x[1].values()) + [x[2], x[3]])]
+            if spec_b:
+                co = (tmod_b, spec_b)
+        judge_build(res, tmod, spec, k, stratum, {"spec": spec, "k": k, "stratum": stratum, "co_spec": co[1] if co else None}, co=co)
     for pin in p.get("pinned", ()):
-        judge_build(res, tmod, pin["spec"], pin["k"], pin.get("stratum", "main"), {"pinned": pin.get("name")})
+        judge_build(res, tmod, pin["spec"], pin["k"], pin.get("stratum", "main"), {"pinned": pin.get("name")},
+                    co=(tmod_b, [tuple(x) for x in pin["co"]]) if pin.get("co") else None)
         res.count("pinned_witnesses")
     sys.path.remove(d)
     return res.out()
@@ -307,6 +346,7 @@ def run(ck):
     for r in core.pmap("vf.props.c11:work", payloads, timeout=3400):
         ck.merge(r)
     ck.need("annotations_judged", 5000)
+    ck.need("two_module_builds", 100)
     ck.need("module_pairs", 15, "module pairs never co-occurring in one stub")
     ck.need("container_with_typeddict", 5, "container kind x contains-TypedDict cell never rendered")
     return ck.finish(
@@ -325,6 +365,6 @@ def replay(ck, path):
     for c in data.get("cases", []):
         w = c.get("witness") or {}
         if "spec" in w:
-            pins.append({"spec": [tuple(x) for x in w["spec"]], "k": w["k"], "stratum": w.get("stratum", "main"), "name": "replay"})
+            pins.append({"spec": [tuple(x) for x in w["spec"]], "k": w["k"], "stratum": w.get("stratum", "main"), "name": "replay", "co": w.get("co_spec")})
     ck.merge(work({"id": "replay", "seed": "replay", "builds": 0, "pinned": pins}))
     return ck.finish(rule="replay of " + path)
